@@ -397,10 +397,25 @@ def handleJoin (j : Json) : Except String Verdict := do
     let fl ← asList (fibersJ.getD i (jList []))
     -- model of the rank's shape after all fibers of the level joined
     let start : RankAttrs := ⟨ids.getD i "", decl.map (fun s => s.getD i 0), decl.isNone, 0, Fmt.C⟩
+    let ownShapes : List Int := match optField o "shapes" with
+      | some v => ((v.getArr?).toOption.getD #[]).toList.filterMap (fun x => (x.getInt?).toOption)
+      | none => []
+    let ownOf : Nat → Option Int := fun jx =>
+      if ownShapes.isEmpty then ownShape else ownShapes[jx % ownShapes.length]?
+    if !ownShapes.isEmpty then ownAttrs := true
     let mut r := start
+    let mut jx := 0
+    let mut covered := true     -- every fiber's coordinates lie inside the shape it declares itself / the tensor declares
     for fJ in fl do
       let cs ← asInts (← field fJ "c")
-      r := joinShape r ownShape (estFiber cs)
+      r := joinShape r (ownOf jx) (estFiber cs)
+      let bound : Option Int := match decl with
+        | some s => if via == "fromFiber" then some (s.getD i 0) else (ownOf jx)
+        | none => ownOf jx
+      match bound with
+      | some b => if !cs.all (fun c => decide (0 ≤ c) && decide (c < b)) then covered := false
+      | none => if !cs.all (fun c => decide (0 ≤ c)) then covered := false
+      jx := jx + 1
     if via == "fromFiber" then
       match decl with
       | some s => r := { r with shape := some (s.getD i 0) }
@@ -421,6 +436,18 @@ def handleJoin (j : Json) : Except String Verdict := do
       if fD ≠ rDflt then fails := fails ++ [s!"dflt@{i}"]
       if fF ≠ eff.fmt then fails := fails ++ [s!"fmt@{i}"]
       if !boolD fJ "owned" false then fails := fails ++ [s!"owner@{i}"]
+      -- … and the rank's shape / the fiber's range still cover what the fiber stores
+      if covered then
+        let cs ← asInts (← field fJ "c")
+        let inShape := cs.all (fun c => decide (0 ≤ c) && decide (c < fShape))
+        let inAct ← match (← fArr fJ "a") with
+          | [lo, hi] => do
+            let lo ← lo.getInt?
+            let hi ← hi.getInt?
+            pure (cs.all (fun c => decide (lo ≤ c) && decide (c < hi)))
+          | _ => pure false
+        if !inShape then fails := fails ++ [s!"bounds:shape@{i}"]
+        if !inAct then fails := fails ++ [s!"bounds:active@{i}"]
   let failsU := fails.eraseDups
   pure { agree, spec := failsU.isEmpty, tags := [via] ++ (if ownAttrs then ["nontrivial", "own-attrs"] else []) ++
            failsU.map (fun f => "fail:" ++ f), why := ",".intercalate failsU }
